@@ -613,6 +613,12 @@ Proof.
     destruct (c' =? c) eqn:E1.
     + cbn in Hg. destruct (h' =? 0); inversion Hg; subst. apply chinv_channel0.
     + apply H. unfold get_chan, get_conn. exact Hg.
+  - (* LBadMethod *)
+    destruct (get_conn s c) as [cn0|]; [|exact H].
+    destruct (negb _ && negb _)%bool; [apply CI_conn_close; auto|].
+    apply CI_apply_err_st; auto. cbn [fst]. apply CI_ensure_chan; auto.
+  - (* LHeartbeat *)
+    destruct (get_conn s c); [|exact H]. destruct (h =? 0); [exact H|apply CI_conn_close; auto].
 Qed.
 
 Lemma CI_init cfg : CI (init cfg).
